@@ -16,8 +16,12 @@ import sys
 PLAN_TIMEOUT_S = int(os.environ.get("VERIF_PLAN_TIMEOUT", "60"))
 
 
-def norm_res(res):
+def norm_res(res, op=None):
     r = res.get("r")
+    if op is not None and op.get("abort_at") and op.get("op") == "scan":
+        return ["ABORTABLE"]  # where the cancellation lands may depend on set iteration order
+    if res.get("tainted") or r == "ABORTED":
+        return ["CANCELLED-OBJECT", res.get("ev_after")]  # only the evaluable is comparable
     if r == "exc":
         return ["exc", "A:" + res.get("msg", "")] if res.get("assertion") else ["exc"]
     if r == "FAIL":
@@ -37,7 +41,7 @@ def norm_res(res):
 
 def comparable(result):
     """The part of an execution that must not depend on the interpreter's hash seed."""
-    events = [[e["i"], e["c"], e["op"]["op"], norm_res(e["res"])] for e in result["log"]]
+    events = [[e["i"], e["c"], e["op"]["op"], norm_res(e["res"], e["op"])] for e in result["log"]]
     iso = result.get("isolated") or {}
     scans = {k: norm_res(v) for k, v in (iso.get("scans") or {}).items()}
     outs = {k: norm_res(v) for k, v in (iso.get("outcomes") or {}).items()}
@@ -52,6 +56,13 @@ def run_one(plan, executor, judge, generators, want_log, tag):
     finally:
         faulthandler.cancel_dump_traceback_later()
     comp = comparable(result)
+    if result.get("probes") and plan.get("prop") == "C15":
+        pr = verdict["stats"].setdefault("probes", {})
+        for k, v in result["probes"]["aborts"].items():
+            if v:
+                pr[f"cancellation_{k}"] = pr.get(f"cancellation_{k}", 0) + v
+        if result["probes"]["evaluable_address_reused"]:
+            pr["evaluable_address_reused"] = result["probes"]["evaluable_address_reused"]
     sched = [[e["c"], e["op"]["op"], e["op"].get("m"), e["op"].get("obj"), e["op"].get("ev"),
               judge.form(e["op"])] for e in result["log"]]
     out = {
